@@ -19,6 +19,9 @@ CLAIMS = {
  'C03': ('model_checking',
    "TLA+ specs AeadStream (chunked AEAD stream + the crate's fill/decrypt/decrypt_last decryptor machine, symbolic octets, ideal AEAD) and CfbMdc (Prefix->Data->Done|Error machine with 22-octet hold-back, CheckFirst/Streaming) are model-checked exhaustively at scaled constants over every flip / delete range / insertion / chunk duplicate / swap / final-tag duplicate / header change, with sensitivity runs (no index in nonce, no final tag, no MDC compare => invariant violated), and again at the REAL constants (chunk 64/tag 16; prefix 18/MDC 22/buffer 8192) where TLC emits every (length, manipulation, mode) case; the harness applies each position-exactly to real containers (EAX/OCB/GCM; all 255 other values of every header octet at chunk sizes 64 B and 4 KiB) and drives Message and packet::StreamDecryptor with six consumer patterns to the first error/EOF.",
    'DESIGN.md 5/C03', TECH),
+ 'C09': ('model_checking',
+   "TLA+ spec Stages (generic pull stage: bounded buffer, upstream with arbitrary short reads and one injected fault, the code's two end-of-input rules, the fill_buffer loop) is model-checked over every composition of every input <=7 (thorough 9) into read sizes x every fault position x caps 2..4 for the three rule combinations the crate uses, with sensitivity runs (short-read-as-EOF without fill_buffer => Transparent violated; error swallowed inside the fill loop => FaultSurfaces violated); TLC emits the 42 cyclic schedule patterns over symbolic sizes; the harness instantiates them at the real buffer sizes for 7 pipeline configurations x 10-20 payload sizes (builder source/sink schedules, reader source x consumer schedules, single faults on source and sink at sampled call indices) and checks verdict transparency on rejected inputs (all chunkings of all short texts; trailing-data / truncated streams x every consumer pattern).",
+   'DESIGN.md 5/C09', TECH),
 }
 checks = []
 for p in props:
